@@ -8,8 +8,8 @@ theorem ok_not_nl {c : Char} (h : Ok c) : c ≠ '\n' ∧ c ≠ '\r' := by
   · subst h; exact ⟨by decide, by decide⟩
   · exact (box_facts c h).2
 
-theorem truncGo_ok (cw : Char → Nat) (width : Nat) (full : Bool) (l : Str) (hl : OkStr l)
-    (off : Nat) (ign : Bool) : OkStr (truncGo cw width full l off ign) := by
+theorem truncGo_ok (A : Arith) (cw : Char → Nat) (width : Nat) (full : Bool) (l : Str) (hl : OkStr l)
+    (off : Nat) (ign : Bool) : OkStr (truncGo A cw width full l off ign) := by
   induction l generalizing off ign with
   | nil =>
     simp only [truncGo]
@@ -23,7 +23,7 @@ theorem truncGo_ok (cw : Char → Nat) (width : Nat) (full : Bool) (l : Str) (hl
     simp only [truncGo, (ok_not_nl hc).1, (ok_not_nl hc).2, if_false]
     intro x hx
     have key : ∀ (b : Bool) (o : Nat) (g : Bool),
-        x ∈ (if b = true then c :: T_OFF else c :: truncGo cw width full cs o g) → Ok x := by
+        x ∈ (if b = true then c :: T_OFF else c :: truncGo A cw width full cs o g) → Ok x := by
       intro b o g hx
       split at hx
       · rcases List.mem_cons.mp hx with rfl | hx
@@ -99,10 +99,10 @@ theorem pstr_nullStr : PStr nullStr := by unfold PStr nullStr; decide
 theorem W_trunc (cw : Char → Nat) (hcw : ∀ c, Printable c → cw c = 1) (hbox : ∀ c ∈ boxChars, cw c = 1)
     {pre post payload : Str} (w : Nat)
     (hpre : pre = [] ∨ pre ∈ usedTokens) (hpost : post = [] ∨ post ∈ usedTokens) (hp : OkStr payload) (hw : 1 ≤ w) :
-    W (pre ++ truncPrintable cw payload w true ++ post) w
-    ∧ OkStr (pre ++ truncPrintable cw payload w true ++ post) := by
+    W (pre ++ truncPrintable specArith cw payload w true ++ post) w
+    ∧ OkStr (pre ++ truncPrintable specArith cw payload w true ++ post) := by
   have hgood : ∀ c ∈ payload, Good cw c := fun c hc => ok_good cw hcw hbox (hp c hc)
-  have hmid : W (truncPrintable cw payload w true) w := by
+  have hmid : W (truncPrintable specArith cw payload w true) w := by
     have := truncGo_full cw w payload hgood 0 false (by omega)
     simpa [W, truncPrintable] using this
   have hpre' : W pre 0 ∧ OkStr pre := by
@@ -116,7 +116,7 @@ theorem W_trunc (cw : Char → Nat) (hcw : ∀ c, Printable c → cw c = 1) (hbo
   constructor
   · have := W_append (W_append hpre'.1 hmid) hpost'.1
     simpa using this
-  · exact okStr_append (okStr_append hpre'.2 (truncGo_ok cw w true payload hp 0 false)) hpost'.2
+  · exact okStr_append (okStr_append hpre'.2 (truncGo_ok specArith cw w true payload hp 0 false)) hpost'.2
 
 end Display
 
@@ -134,6 +134,7 @@ def CellAscii : Cell → Prop
   | .bytes b _ => ∀ x ∈ b, 32 ≤ x.toNat ∧ x.toNat < 127
   | .dict kvs _ => ∀ kv ∈ kvs, PStr kv.1 ∧ PStr kv.2
   | .interval ps _ => ∀ s ∈ ps, PStr s
+  | .intervalInt _ _ _ _ => True
   | .list xs _ => ∀ s ∈ xs, PStr s
   | .other s => PStr s
 
@@ -208,11 +209,22 @@ theorem okStr_intervalText {ps : List Str} (h : ∀ s ∈ ps, PStr s) : OkStr (i
     (okStr_joinWith (okStr_of_pstr (by unfold PStr; decide)) (fun x hx => okStr_of_pstr (h x hx))))
     (okStr_tok (by simp [usedTokens]))
 
+theorem pstr_intervalParts (A : Arith) (mo d sc : Int) : ∀ s ∈ intervalParts A mo d sc, PStr s := by
+  intro s hs
+  have lit : ∀ (i : Int) (suf : Str), PStr suf → PStr (intStr i ++ suf) := fun i suf h => pstr_append (pstr_intStr i) h
+  simp only [intervalParts, List.mem_append] at hs
+  rcases hs with ((((hs | hs) | hs) | hs) | hs) | hs <;>
+    (split at hs
+     · simp only [List.mem_cons, List.not_mem_nil, or_false] at hs
+       subst hs
+       exact lit _ _ (by unfold PStr; decide)
+     · simp at hs)
+
 /-- **Every formatted cell of printable-ASCII content is produced without error, prints exactly
 `w` characters (`w ≥ 1`), and leaves no escape open** — whatever the decode mode. -/
 theorem formatCell_width (cw : Char → Nat) (hcw : ∀ c, Printable c → cw c = 1) (hbox : ∀ c ∈ boxChars, cw c = 1)
     (strict : Bool) (c : Cell) (w : Nat) (hc : CellAscii c) (hw : 1 ≤ w) :
-    ∃ s, formatCell cw strict c w = .ok s ∧ W s w ∧ OkStr s := by
+    ∃ s, formatCell specArith cw strict c w = .ok s ∧ W s w ∧ OkStr s := by
   have tk : ∀ t, t ∈ usedTokens → ([] : Str) = [] ∨ t ∈ usedTokens := fun t h => Or.inr h
   cases c with
   | null =>
@@ -255,6 +267,10 @@ theorem formatCell_width (cw : Char → Nat) (hcw : ∀ c, Printable c → cw c 
   | interval ps n =>
     have := W_trunc cw hcw hbox (pre := []) (post := []) (payload := intervalText ps) w
       (Or.inl rfl) (Or.inl rfl) (okStr_intervalText hc) hw
+    exact ⟨_, rfl, by simpa using this.1, by simpa using this.2⟩
+  | intervalInt mo d sc n =>
+    have := W_trunc cw hcw hbox (pre := []) (post := []) (payload := intervalText (intervalParts specArith mo d sc)) w
+      (Or.inl rfl) (Or.inl rfl) (okStr_intervalText (pstr_intervalParts specArith mo d sc)) hw
     exact ⟨_, rfl, by simpa using this.1, by simpa using this.2⟩
   | list xs n =>
     have := W_trunc cw hcw hbox (pre := []) (post := []) (payload := listText xs) w
